@@ -9,6 +9,41 @@ HOOK_COMMITS = subprocess.run(
 TECH = "deterministic simulation with fault injection: seeded search over generated histories/schedules/fault sequences against the real code under a simulated clock, invariant + history oracles, tape shrinking, replay files"
 
 CHECKS = {
+    "C04": dict(
+        cat="exploration", ref="DESIGN.md §5 C04",
+        text="Seeded exploration of whole-handler executions: 2-4 real handlers on a harness-owned virtual network under a simulated clock, concurrent requests, per-run fault profile (drop, duplicate, delay/reorder, partition, slow/silent application, peer restart, injected undecryptable packet, clock jump); history oracle: never two terminals or an event after the terminal, a terminal for every request within a calibrated bound after the last fault (bounded liveness), at most 1+retries transmissions per request and session key (wire tap + key log), Timeout only if some request to that peer was outstanding for a full timeout.",
+        note="Trusted: harness ledger and wire tap; key log hook H6; the socket I/O loops are replaced by virtual-network loops (real handle_inbound / Packet::encode still run). Liveness bound B = 4*(retries+1)*timeout + 5 s.",
+        technique="deterministic simulation (W-H handler world): virtual network + paused clock + seeded RNG, fault injection, history oracle, bounded liveness after faults stop"),
+    "C09": dict(
+        cat="exploration", ref="DESIGN.md §5 C09",
+        text="Seeded exploration of event orders against the real FindNodeQuery / PredicateQuery state machines and the real QueryPool under explicit simulated time: reference bookkeeping of asked peers and in-flight requests (no peer twice, parallelism bound), discv5's own debug assertions as extra oracles, and a fault-free drain phase with a step bound (termination, result exactly once).",
+        note="Trusted: the reference bookkeeping; the parallelism bound is `parallelism` until that many successes were delivered, max(parallelism, k) afterwards.",
+        technique="deterministic simulation (W-Q query world): generated event orders with explicit time, reference model, bounded-liveness drain"),
+    "C10": dict(
+        cat="exploration", ref="DESIGN.md §5 C10",
+        text="Same runs as C09; the final result of every query (Finished or pool Timeout) is checked for size, strict XOR order (raw bytes), soundness (asked and answered; predicate match reported) and completeness when fewer than k results came back without a timeout.",
+        note="Trusted: 'certainly learned' candidates are an under-approximation (first k initial candidates plus peers from first reports), so completeness cannot false-alarm.",
+        technique="deterministic simulation (W-Q query world): generated event orders, result oracle against the harness's history"),
+    "C13": dict(
+        cat="exploration", ref="DESIGN.md §5 C13",
+        text="Same handler world as C04 with malicious peers (second WHOAREYOU, forged WHOAREYOU, random packets from unknown parties) and the packet filter on in half of the handlers; the shared exemption map is compared after every burst of activity with the harness's ledger of outstanding requests (external and handler-internal, from the wire) and challenges (upper bound) and must be empty at quiescence.",
+        note="Trusted: ledger built from the wire tap and key log; challenge expiry modelled as request_timeout after the WHOAREYOU or after the last handshake that may have re-armed it.",
+        technique="deterministic simulation (W-H handler world): fault + adversary injection, ledger invariant during the run and at quiescence"),
+    "C16": dict(
+        cat="exploration", ref="DESIGN.md §5 C16",
+        text="Seeded exploration of operation histories on the routing table of a Discv5 built with ip_limit (real IP filters), real signed records from 1-3 /24 subnets plus address-less fillers, clock advances around the 60 s pending timeout; per-bucket (2) and per-table (10) /24 counts checked after every operation.",
+        note="Trusted: subnet counting of the oracle. Entry::Absent::insert is excluded (documented to bypass the table filter).",
+        technique="deterministic simulation (W-T table world with Enr values): generated op histories + simulated clock, invariant oracle"),
+    "C18": dict(
+        cat="exploration", ref="DESIGN.md §5 C18",
+        text="Seeded exploration of arrival schedules against the real inbound Filter under explicit simulated time: window bound burst + rate*window per stage and key over the recorded pass events, conforming traffic never refused, metamorphic pair with/without prune ticks gives identical decisions, ban/permit precedence per stage, quota excess inserts a ban of at least ban_duration.",
+        note="Trusted: pacing reference used to generate conforming traffic; quota periods divisible by the burst so the limiter's integer interval is exact. The exemption bypass of handle_inbound is covered under C13.",
+        technique="deterministic simulation (W-R filter world): generated arrival schedules with explicit time, window-bound oracle, metamorphic prune pair"),
+    "C19": dict(
+        cat="exploration", ref="DESIGN.md §5 C19",
+        text="Wire monitor over the handler world's traffic (many messages per session, retransmissions, re-keying by either side, forged WHOAREYOUs): every Message/Handshake datagram is attributed to the session key that decrypts it; (emitter, key, nonce) must identify one byte string; id-nonces never repeat.",
+        note="Trusted: key log hook H6 reports every session object created.",
+        technique="deterministic simulation (W-H handler world): wire tap grouped by session key, uniqueness oracle"),
     "C07": dict(
         cat="exploration", ref="DESIGN.md §5 C07",
         text="Seeded exploration of operation histories (all table operations incl. the Entry API, clock advances around the pending timeout) on the real KBucketsTable with keys placed in chosen buckets (0..255); structural invariants are evaluated after every operation and the pending-node rules as temporal checks over the history. Sampling, not enumeration: a clean batch is evidence, not proof.",
